@@ -27,8 +27,11 @@ RULE = ("each evaluation is one seeded session of 5-40 operations over the "
         "file_exists/file_info/list_dir/make_dir/execute/run/read_file/"
         "which/get_env/date/now/timestamp) in a non-secure legacy "
         "interpreter on a simulated OS whose paths are text file / empty / "
-        "non-UTF-8 / directory / missing / missing parent / program, with "
-        "handles reused after close and after failures, half of the "
+        "non-UTF-8 / directory / missing / missing parent / program (also one "
+        "that floods stderr or stdout) / symbolic links (to a file, to a "
+        "directory, dangling, chain, cycle, a directory linking to itself), "
+        "with handles reused after close and after failures, use-remove-use "
+        "scenarios, results consumed by further operations, half of the "
         "operations wrapped in catch-all, and faults (open/read/write/"
         "flush/close/metadata/process/stream/console/clock) landing on the "
         "k-th system call inside an operation; distinct = distinct "
@@ -68,6 +71,8 @@ PATHS = {
     "rel": "rel.txt", "dirslash": D + "/sub/", "root": D,
     "loop": D + "/loop", "dangling": D + "/dangling",
     "linkfile": D + "/linkfile", "linkdir": D + "/linkdir",
+    "linkcycle": D + "/cyc1", "selflink": D + "/selfl",
+    "linkchain": D + "/chain1",
 }
 STATE = {"text": "file", "empty": "file", "bin": "file", "dir": "dir",
          "inner": "file", "missing": "missing", "noparent": "missing",
@@ -77,7 +82,8 @@ STATE = {"text": "file", "empty": "file", "bin": "file", "dir": "dir",
          "newdir": "missing", "deep": "missing", "rel": "missing",
          "dirslash": "dir", "root": "dir", "loop": "dir-with-link-cycle",
          "dangling": "dangling-link", "linkfile": "link-to-file",
-         "linkdir": "link-to-dir"}
+         "linkdir": "link-to-dir", "linkcycle": "link-cycle",
+         "selflink": "link-to-itself", "linkchain": "link-chain"}
 
 
 _W = ["fs.write", "fs.flush", "out.write", "out.flush", "console.write"]
@@ -206,8 +212,15 @@ def gen_case(rng, tier, k):
             name = "file_exists"
         elif r < 0.84:
             pk, p = path()
-            src = f"file_info({q(p)})" + rng.choice(["", "->size",
-                                                     "->modified"])
+            if rng.random() < 0.3:
+                pk, p = path(["linkcycle", "selflink", "linkchain",
+                              "dangling", "linkfile", "linkdir", "loop"])
+            src = f"file_info({q(p)})" + rng.choice([
+                "", "->size", "->modified", "->modified < date()",
+                "->created == date()", "->is_dir"])
+            if rng.random() < 0.15:
+                src = (f"sorted([file_info({q(p)})->modified, date(), "
+                       f"file_info({q(PATHS['text'])})->created])")
             name = "file_info"
         elif r < 0.88:
             pk, p = path()
@@ -271,6 +284,21 @@ def gen_case(rng, tier, k):
             src = rng.choice(["string({X})", "length(string({X}))",
                               "[{X}]", "{X} == {X}", "'' + string({X})",
                               "type({X})"]).replace("{X}", src)
+        scenario = None
+        if rng.random() < 0.06:
+            # use a path, make it disappear (or change kind), use it again
+            key = rng.choice(["script", "text", "inner", "errscript"])
+            p0 = PATHS[key]
+            use = rng.choice([f"run({q(p0)})", f"read_file({q(p0)})",
+                              f"file_info({q(p0)})->size",
+                              f"list_dir({q(D + '/sub')})",
+                              f"def {new_handle('in')} = file_input({q(p0)})",
+                              f"file_copy({q(p0)}, {q(PATHS['new'])})"])
+            gone = rng.choice([f"file_delete({q(p0)})",
+                               f"file_move({q(p0)}, {q(D + '/moved.x')})",
+                               f"do file_delete({q(p0)}); make_dir({q(p0)});"
+                               f" end"])
+            scenario = [use, gone, use]
         wrapped = rng.random() < 0.5
         faults = []
         if rng.random() < fault_rate:
@@ -300,6 +328,12 @@ def gen_case(rng, tier, k):
                                "err": rng.choice(errs[s2])})
         ops.append({"kind": "op", "name": name, "src": src, "pk": pk,
                     "wrapped": wrapped, "faults": faults})
+        if scenario:
+            for j2, s2 in enumerate(scenario):
+                ops.append({"kind": "op", "name": "scenario:" +
+                            s2.split("(")[0].split()[-1], "src": s2,
+                            "pk": "use-remove-use", "wrapped":
+                            rng.random() < 0.4, "faults": []})
         if rng.random() < 0.12:
             ops.append({"kind": "health"})
         if rng.random() < 0.05:
@@ -380,6 +414,11 @@ def build_world(sim):
     w.put_symlink(PATHS["dangling"], "no-such-target")
     w.put_symlink(PATHS["linkfile"], "a.txt")
     w.put_symlink(PATHS["linkdir"], "sub")
+    w.put_symlink(PATHS["linkcycle"], "cyc2")
+    w.put_symlink(D + "/cyc2", "cyc1")
+    w.put_symlink(PATHS["selflink"], "selfl")
+    w.put_symlink(PATHS["linkchain"], "chain2")
+    w.put_symlink(D + "/chain2", "a.txt")
     w.put_file(PATHS["prog"], "#!tool\n")
     w.put_file(PATHS["failprog"], "#!fail\n")
     w.put_file(PATHS["script"], "def from_script = 5; from_script + 1")
